@@ -3,8 +3,9 @@ ENTRY = {
     "families": [fam("C40", 5000, 150000)],
     "gen_items": [],
     "rule": "cases: result sets of 1..4 columns (Utf8, LargeUtf8, Int64, Int32, UInt64, Boolean, Float64) x 0..5 rows cut into 0..n record batches (empty batches, no batch at all), "
-            "printed by the real OutputFormatter (src/cli/output.rs compiled into the harness from /repo's working tree) as CSV or JSON (50/50); strings and 40% of the column names drawn from "
-            "commas, quotes, CR, LF, backslash, tab, NUL and other C0 controls, DEL, U+2028, BOM, non-ASCII and astral characters; NULL density 1/6; integers at the type extremes and 2^53+-1; "
+            "printed by the real OutputFormatter (src/cli/output.rs compiled into the harness from /repo's working tree) as CSV or JSON (50/50); every string (cells and 30% of the column names) is a random interleaving of character classes: plain ASCII | needs quoting/escaping (quote, comma, CR, LF, backslash, tab) | "
+            "C0 controls | 2-byte | 3-byte | 4-byte UTF-8 (incl. U+0080, U+07FF, U+0800, U+2028, BOM, U+FFFF, U+10000, U+10FFFF); in 60% of the strings of length >= 2 one escape-needing AND one non-ASCII character are forced in "
+            "(about 40% of all strings combine both; tag esc+utf8, required >= 1000 of 5000 cases); NULL density 1/6; integers at the type extremes and 2^53+-1; "
             "floats incl. NaN, +-inf, -0, 1e21, MIN_POSITIVE (their Display text is an input of the model); non-trivial = at least one row; distinct by sha256 of the canonical case",
     "trusted_base": COMMON_TB + ["modelled not verified: write_csv / format_csv_value / write_json / format_json_value / format_display_value for string, integer, boolean, float and NULL cells (IQE.Engine.CliOutput)",
                                  "the readers IQE.Spec.Csv (RFC 4180, LF or CRLF) and IQE.Spec.JsonTable (RFC 8259, array of flat objects) are the specification of 'parses back'",
@@ -12,7 +13,7 @@ ENTRY = {
     "assumptions": ["the harness calls the formatter in-process (format_to_string), not through `query_engine repl` stdout: the REPL passes the same batches to the same OutputFormatter::print",
                     "dates, decimals and nested (list/struct/map) columns, max_rows truncation, and the table/vertical formats are not covered",
                     "CSV prints nothing at all for an empty batch list (not even the header): outside the statement, compared with the model only"],
-    "min_tags": {"csv": 1, "json": 1, "null": 1, "special-chars": 1, "multi-batch": 1, "no-batches": 1, "no-rows": 1},
+    "min_tags": {"csv": 1, "json": 1, "esc+utf8": 1000, "json:esc+utf8": 500, "csv:esc+utf8": 500, "null": 1, "special-chars": 1, "multi-batch": 1, "no-batches": 1, "no-rows": 1},
     "manifest": {
         "category": "proof",
         "text": "Lean theorems over the executable character-level model of the CLI's CSV and JSON writers: for every header and all cell texts the RFC 4180 reader returns exactly header and rows (C40_csv_roundtrip, C40_csv_cells); for all column names and all rows of NULL / string / boolean / integer / non-finite float cells the JSON reader returns exactly the name/value pairs (C40_json_roundtrip). Tied to the code by correspondence on generated result sets printed by the real OutputFormatter, whose output is also parsed back by the two reference readers (oracle).",
